@@ -315,7 +315,11 @@ def _tomtom(Q, T, Q_lens, T_lens, Q_norm, T_norm, rr_inv, rr_counts, n_nearest,
 
 	# Re-usable workspace for each thread instead of re-allocating
 	# and freeing large arrays for each example.
+	# The offset of an integerized score never exceeds the number of score bins,
+	# so a cache of that size always suffices; a smaller one would let the
+	# background calculations write past the end of the scratchboard.
 	n = numba.get_num_threads()
+	n_cache = max(n_cache, n_score_bins)
 	n_len = Q_max*n_score_bins + Q_max*n_cache
 	
 	_gamma = numpy.empty((n, nt, Q_max), dtype='float64')
